@@ -191,3 +191,28 @@ Example ex_csv_loaded :
   | RErr _ => None
   end = Some (text_of_string "AB", 2, text_of_string "AB", text_of_string "ab", [1; 1])%N.
 Proof. vm_compute. reflexivity. Qed.
+
+(* ---------- word ids and the capacity of a stack ---------- *)
+From SudachiVerif Require Model.LexSet Proofs.LexSetProofs Proofs.CodecWordIdProofs Generated.Limits.
+From SudachiVerif Require Properties.C05.
+
+(* non-vacuity: word 5 of the 14th user dictionary *)
+Example ex_word_id_14 :
+  LexSet.stamp 14 5 = 3758096389%N /\ LexSet.dic_of 3758096389 = 14%N /\ LexSet.word_of 3758096389 = 5%N
+  /\ LexSet.is_oov 3758096389 = false /\ LexSet.reported_dic 3758096389 = 14%Z.
+Proof. vm_compute. repeat split; reflexivity. Qed.
+
+(* the refutation shape of a capacity of 16: a word of a 15th user dictionary (dictionary number = MAX_DICTIONARIES) IS an
+   out-of-vocabulary id -- the same raw value as WordId::oov(word), the out-of-vocabulary class, dictionary id -1 *)
+Theorem C05_fifteenth_user_dictionary_refuted : forall word, (word <= LexSet.WORD_MASK)%N ->
+  LexSet.stamp Generated.Limits.MAX_DICTIONARIES word = LexSet.oov_id word
+  /\ LexSet.is_oov (LexSet.stamp Generated.Limits.MAX_DICTIONARIES word) = true
+  /\ LexSet.reported_dic (LexSet.stamp Generated.Limits.MAX_DICTIONARIES word) = (-1)%Z.
+Proof. exact (CodecWordIdProofs.fifteenth_user_dictionary_is_oov C05.C05_fact_word_id_layout C05.C05_fact_word_id_capacity). Qed.
+Example ex_fifteenth : LexSet.stamp 15 0 = LexSet.oov_id 0 /\ LexSet.reported_dic (LexSet.stamp 15 0) = (-1)%Z.
+Proof. vm_compute. split; reflexivity. Qed.
+
+(* the arithmetic-shift reading of the dictionary number reports -6 for a word of user dictionary 10 *)
+Example C05_arithmetic_shift_refuted :
+  CodecWordIdProofs.arith_dic (LexSet.stamp 10 7) = (-6)%Z /\ LexSet.reported_dic (LexSet.stamp 10 7) = 10%Z.
+Proof. vm_compute. split; reflexivity. Qed.
